@@ -306,10 +306,15 @@ def _check_labelling(ctx, name, oplist, depth, full, classes):
                 ctx.check_close(sig + "/regular-part", case, res["s9-reg"], expect(ref[label]["s9-reg"]), TOL, "relabelling(regular part)", scale=scale)
                 e6 = float(np.max(np.abs(res["s6"] - expect(ref[label]["s6"]))) / scale)
                 e9 = float(np.max(np.abs(res["s9"] - expect(ref[label]["s9"]))) / scale)
-                ctx.observe("relabelling(singular order 6)", e6, 5e-5)
-                ctx.observe("relabelling(singular order 9)", e9, 5e-7)
-                if e6 > 5e-5 or e9 > 5e-7 or (e6 > 1e-10 and e9 > e6):
-                    ctx.violation(sig + "/singular-part", dict(case, diff6=e6, diff9=e9), "relabelled matrix differs by %.2e (s=6) / %.2e (s=9)" % (e6, e9))
+                # "up to singular-quadrature error": the quadrature error of each matrix is visible in the library's own order ladder
+                # (|A(s=6) - A(s=9)|); the relabelled and the original matrix may differ by at most the sum of their errors, the
+                # difference must shrink with the order, and be small in absolute terms at order 9
+                q6 = max(float(np.max(np.abs(res["s6"] - res["s9"]))), float(np.max(np.abs(ref[label]["s6"] - ref[label]["s9"])))) / scale
+                ctx.observe("relabelling(singular order 6)/own quadrature error", e6 / (q6 + 1e-13), 4.0)
+                ctx.observe("relabelling(singular order 9)", e9, 5e-6)
+                if e6 > 4 * q6 + 1e-11 or e9 > 5e-6 or (e6 > 1e-9 and e9 > 0.1 * e6):
+                    ctx.violation(sig + "/singular-part", dict(case, diff6=e6, diff9=e9, quad6=q6),
+                                  "relabelled matrix differs by %.2e (s=6) / %.2e (s=9); own quadrature error at s=6 is %.2e" % (e6, e9, q6))
     ctx.traces_validated = ctx.transitions
 
 
@@ -365,8 +370,8 @@ def run(ctx):
     ctx.require(len(classes[0]) == 18, "all 18 (test remap, trial remap) edge classes realised in the labelling graph: %d" % len(classes[0]))
     ctx.require(len(classes[1]) == 9, "all 9 vertex classes realised: %d" % len(classes[1]))
     ctx.assumptions += ["the relabelled space's dofs are matched to the original ones by comparing the represented functions at element vertices and centroids",
-                        "regular parts to rounding because the triangle rule of order 4 is a symmetric point set; singular parts quadrature-class (5e-5 at "
-                        "singular order 6, 5e-7 at 9, non-increasing)"]
+                        "regular parts to rounding because the triangle rule of order 4 is a symmetric point set; singular parts quadrature-class (at singular order 6 within "
+                        "4x the library's own order-6-vs-9 difference, at order 9 below 5e-6 and at most a tenth of the order-6 difference)"]
     return ctx.finish(rule="(a),(b): mesh x every operator/space combination x rigid motions x scalings; (c): BFS over the labelling Cayley graph "
                       "{swap elements, rotate local order of one element, reverse one element + flag it in swapped_normals, transpose adjacent vertex labels} "
                       "to depth 2 (3) on edge2/bow2 and coarse generators to depth 1 (2) on larger meshes; every state x every operator; "
